@@ -185,6 +185,24 @@ def replay_case(ctx, kinds, key_kind, chain_ix, variant=0):
         except Exception as e:   # noqa
             ok = False
             ctx.mismatch('C23:derived-group:raises', 'deriving from a sent group raised %s: %s' % (type(e).__name__, str(e)[:200]), case)
+        # the group object edited in place after it has been forged once (as autofill edits its contents): signature and hash follow the contents
+        try:
+            edited = OperationGroup(context=filled.context, contents=[dict(c) for c in filled.contents], protocol=filled.protocol, chain_id=filled.chain_id, branch=filled.branch)
+            edited.forge()
+            edited.contents[-1]['counter'] = str(int(edited.contents[-1]['counter']) + 7)
+            fresh = OperationGroup(context=filled.context, contents=[dict(c) for c in edited.contents], protocol=filled.protocol, chain_id=filled.chain_id, branch=filled.branch)
+            eforged = bytes.fromhex(fresh.forge())
+            esigned = edited.sign()
+            _, eraw = decode_signature(esigned.signature)
+            ewant = b58check(bytes([5, 116]), blake2b32(eforged + eraw))
+            if eforged == forged or not verify(key_kind, pk, eraw, b'\x03' + eforged) or esigned.hash() != ewant:
+                ok = False
+                ctx.mismatch('C23:edited-in-place:%s' % ('signature' if not verify(key_kind, pk, eraw, b'\x03' + eforged) else 'hash'),
+                             'a group forged once, then edited in place (counter + 7) and signed: the signature %s over the bytes of its contents, hash() = %s, expected %s' % (
+                                 'verifies' if verify(key_kind, pk, eraw, b'\x03' + eforged) else 'does not verify', esigned.hash(), ewant), case)
+        except Exception as e:   # noqa
+            ok = False
+            ctx.mismatch('C23:edited-in-place:raises', 'signing a group edited in place raised %s: %s' % (type(e).__name__, str(e)[:200]), case)
     return ok
 
 
